@@ -28,7 +28,9 @@ RULE = ("valid streams of 0-4 chunks (an empty chunk included) x one fault: inva
         "root of a file holding 2 coolers + a plain group with a sub-group, new group beside a root cooler} x ordered / unordered creation; "
         "quick tier: every fault on 4 main destinations, rotating over the others; non-trivial = a fault after at least one written chunk, "
         "or a destination inside a file that already holds collections; plus whole-table (DataFrame / dict) inputs with one invalid record of each "
-        "kind; distinct by case hash")
+        "kind; every combination of boundscheck/triucheck/dupcheck (+ensure_sorted) x every kind of invalid record (a fault counts only when its "
+        "check is on); duplicates identical in every column and duplicates differing in the value; an empty chunk followed by a non-empty "
+        "one; destination URIs with and without the leading slash; distinct by case hash")
 TRUSTED = ["h5py/HDF5 group and attribute semantics are observed (SHA of attrs+datasets per tracked group), modelled only as path -> {format, content id}"]
 ASSUMPTIONS = ["faults are Python exceptions at chunk boundaries (validator, iterator, range check), as the property states"]
 RESIDUE = ["a process killed inside an HDF5 write (torn file) is outside the model",
@@ -78,12 +80,17 @@ SCEN_GROUPS = {   # tracked groups existing before: path -> is a cooler
 }
 
 TARGETS = [  # (scenario, dest, mode, in_property_scope)
-    ("newfile", (), "w", True), ("multi", (9,), "a", True), ("multi", (3,), "a", True), ("multi", (9, 8), "a", True),   # main four
+    ("newfile", (), "w", True), ("multi", (9,), "a", True), ("multi", (3,), "a", True), ("multi", (9, 8), "a", True),
+    ("multi", (), "a", True),                                                                                           # main five
     ("newfile", (), "a", True), ("newfile", (9,), "a", True), ("newfile", (9, 8, 7), "w", True),
-    ("multi", (), "a", True), ("multi", (3, 9), "a", True), ("multi", (1, 9), "a", True), ("multi", (9,), "w", True),
+    ("multi", (3, 9), "a", True), ("multi", (1, 9), "a", True), ("multi", (9,), "w", True),
     ("rootcooler", (9,), "a", True),
     ("multi", (1,), "a", False), ("rootcooler", (), "a", False),
 ]
+
+
+NMAIN = 5
+assert TARGETS[6] == ("newfile", (9,), "a", True) and TARGETS[10] == ("multi", (9,), "w", True)
 
 
 def universe(scen, dest):
@@ -156,6 +163,7 @@ BASE_STREAMS = [
     [[[0, 0, [1]]], [[0, 3, [2]], [2, 2, [5]]]],
     [[[0, 0, [1]], [0, 2, [2]]], [], [[1, 1, [3]], [3, 3, [4]]]],
     [[[0, 1, [1]]], [[1, 1, [2]]], [[1, 3, [3]]], [[2, 3, [4]]]],
+    [[], [[0, 2, [6]], [2, 2, [7]]]],                                   # an empty chunk first, then a non-empty one
 ]
 BAD = {"neg": [[-1, 2, [1]], [0, -1, [1]]], "excess": [[0, NB, [1]], [NB, NB, [1]], [NB + 3, 1, [1]]], "tril": [[2, 1, [1]], [3, 0, [1]]]}
 
@@ -177,6 +185,8 @@ def gen_faults():
                     else:
                         rec = BAD[kind][(k + t) % len(BAD[kind])]
                     out.append((si, ("record", kind, k, pos, rec)))
+            if ch:      # a duplicate that is identical in every column (the "dup" kind above differs in the value column)
+                out.append((si, ("record", "dupsame", k, len(ch), [ch[0][0], ch[0][1], list(ch[0][2])])))
             out.append((si, ("range", k)))
         for k in range(len(st) + 1):
             out.append((si, ("raise", k)))
@@ -210,6 +220,9 @@ def make_iter(items, chunkform):
 
 
 # ----------------------------------------------------------------------------- one run
+_BEFORE = {}
+
+
 def impl_run(case, tpl, workdir):
     import cooler
     scen, dest, mode = case["scenario"], tuple(case["dest"]), case["mode"]
@@ -219,9 +232,13 @@ def impl_run(case, tpl, workdir):
     if tpl[scen]:
         shutil.copy(tpl[scen], path)
     paths = universe(scen, dest)
-    before, _ = observe(path, paths)
-    uri = path if not dest else path + "::" + pstr(dest)
+    ck = (scen, tuple(paths))                      # the state before the run is that of the template: observe it once
+    if ck not in _BEFORE:
+        _BEFORE[ck] = observe(path, paths)[0]
+    before = _BEFORE[ck]
+    uri = path if not dest else path + "::" + (pstr(dest)[1:] if case.get("uri_noslash") else pstr(dest))
     kw = {"mode": mode, "symmetric_upper": case["symm"]}
+    kw.update(case.get("opts", {}))
     if case["ordered"]:
         kw["ordered"] = True
     else:
@@ -265,17 +282,20 @@ def model_expr(case):
         chunks = f"[sort_rows {G.rows_lit(case['items'][0])}]"
     lims = G.lims_lit([["count", "int", "int32", "int64"]])
     fits = f"(fun r : key * list Z => fits_lims {lims} (snd r))"
-    val = f"(validate_pixels (V:=list Z) {C.z(NB)} true {C.b(case['symm'])} true false)"
+    o = case.get("opts", {})
+    bc, tcf, dc, es = o.get("boundscheck", True), o.get("triucheck", True), o.get("dupcheck", True), o.get("ensure_sorted", False)
+    val = f"(validate_pixels (V:=list Z) {C.z(NB)} {C.b(bc)} {C.b(tcf and case['symm'])} {C.b(dc)} {C.b(es)})"
+    cflags = f"{C.b(case['symm'])} {C.b(bc)} {C.b(tcf)} {C.b(dc)} {C.b(es)}"
     mach = "create_machine" if case["ordered"] else "create_unordered_machine"
     m = "ModeW" if case["mode"] == "w" else "ModeA"
     uni = C.lst([C.zl(p) for p in universe(scen, dest)])
     # first error of the stream as the functional model of create sees it (None = every chunk accepted)
-    err = (f"(match create ((0,0),[0]) {fits} (Some (fun r : key * list Z => nth 0 (snd r) 0)) {C.z(NB)} {C.b(case['symm'])} true true true false "
+    err = (f"(match create ((0,0),[0]) {fits} (Some (fun r : key * list Z => nth 0 (snd r) 0)) {C.z(NB)} {cflags} "
            f"{chunks} with inl e => Some e | inr _ => None end)")
     if not case["ordered"]:
         # the sort pass creates one temporary cooler per chunk: the first failing chunk decides
         err = (f"(hd_error (flat_map (fun c => match create ((0,0),[0]) {fits} (Some (fun r : key * list Z => nth 0 (snd r) 0)) {C.z(NB)} "
-               f"{C.b(case['symm'])} true true true false [c] with inl e => [e] | inr _ => [] end) {chunks}))")
+               f"{cflags} [c] with inl e => [e] | inr _ => [] end) {chunks}))")
     return (f"(let b := {file_lit(scen)} in let r := {mach} {m} {C.zl(dest)} {val} {fits} {items} b in "
             f"(snd r, map (obs_path b (fst r)) {uni}, list_coolers (fst r), {err}))")
 
@@ -285,7 +305,14 @@ def oracle(case, out):
     bad = []
     dest = tuple(case["dest"])
     fault = case["fault"]
-    effective = fault is not None and not (fault[0] == "record" and fault[1] == "tril" and not case["symm"])
+    o = case.get("opts", {})
+    effective = fault is not None
+    if fault is not None and fault[0] == "record":
+        rec = fault[4]
+        oob = rec[0] < 0 or rec[1] < 0 or rec[0] >= NB or rec[1] >= NB
+        effective = ((o.get("boundscheck", True) and oob)
+                     or (o.get("triucheck", True) and case["symm"] and rec[0] > rec[1])
+                     or (o.get("dupcheck", True) and fault[1] in ("dup", "dupsame")))
     if not effective:
         if out["result"] != "ok":
             bad.append(("a valid stream was refused", "ok", out["result"]))
@@ -344,20 +371,22 @@ def gen_cases(ctx):
     rot = 0
     for fi, (si, fault) in enumerate(faults):
         items = apply_fault(BASE_STREAMS[si], fault)
-        tgts = list(range(4))
+        tgts = list(range(NMAIN))
         if thorough:
             tgts = list(range(len(TARGETS)))
         else:
-            tgts += [4 + (rot % (len(TARGETS) - 4)), 4 + ((rot + 5) % (len(TARGETS) - 4))]
+            tgts += [NMAIN + (rot % (len(TARGETS) - NMAIN))] + ([NMAIN + ((rot + 5) % (len(TARGETS) - NMAIN))] if fi % 2 == 0 else [])
             rot += 3
         for ti in tgts:
             scen, dest, mode, scope = TARGETS[ti]
-            symm = not (ti >= 4 and (fi + ti) % 5 == 0)
+            symm = not (ti >= NMAIN and (fi + ti) % 5 == 0)
             cases.append({"scenario": scen, "dest": list(dest), "mode": mode, "in_scope": scope, "symm": symm, "ordered": True,
                           "stream": si, "fault": list(fault) if fault else None, "items": items, "chunkform": ["dict", "df"][(fi + ti) % 2]})
+            if dest and (fi + ti) % 2:
+                cases[-1]["uri_noslash"] = True          # "file::new/x" instead of "file::/new/x"
         # unordered creation (at least one chunk: the merge of zero inputs is C06's subject)
         if BASE_STREAMS[si] and (thorough or fi % 3 == 0):
-            for ti in ((1, 5, 0, 2) if thorough else ((1, 5)[(fi // 3) % 2],)):
+            for ti in ((1, 6, 0, 2, 4) if thorough else ((1, 6)[(fi // 3) % 2],)):
                 scen, dest, mode, scope = TARGETS[ti]
                 cases.append({"scenario": scen, "dest": list(dest), "mode": mode, "in_scope": scope, "symm": True, "ordered": False,
                               "stream": si, "fault": list(fault) if fault else None, "items": items, "chunkform": "df",
@@ -374,6 +403,24 @@ def gen_cases(ctx):
                 cases.append({"scenario": scen, "dest": list(dest), "mode": mode, "in_scope": scope, "symm": True, "ordered": True, "form": "frame",
                               "stream": -1, "fault": ["record", kind, 0, pos, rec] if kind else None, "items": [rows], "chunkform": ["df", "dict"][k % 2]})
             k += 1
+    # every combination of the check toggles x every kind of invalid record (last chunk of a 2-chunk stream)
+    k = 0
+    base = BASE_STREAMS[2]
+    recs = [("neg", [-1, 2, [1]]), ("neg", [0, -1, [1]]), ("excess", [0, NB, [1]]), ("excess", [NB + 3, 1, [1]]), ("tril", [2, 1, [1]]),
+            ("dup", [2, 2, [9]]), ("dupsame", [2, 2, [5]])]
+    for kind, rec in recs:
+        for bits in range(8):
+            opts = {"boundscheck": bool(bits & 1), "triucheck": bool(bits & 2), "dupcheck": bool(bits & 4)}
+            if bits == 7 and not thorough:
+                continue                                 # all checks on: the main enumeration above
+            if (k % 3) == 0:
+                opts["ensure_sorted"] = True
+            fault = ["record", kind, 1, 1, rec]
+            for ti in ((1, 0, 4) if thorough else ((1, 0, 4)[k % 3],)):
+                scen, dest, mode, scope = TARGETS[ti]
+                cases.append({"scenario": scen, "dest": list(dest), "mode": mode, "in_scope": scope, "symm": (k % 4) != 3, "ordered": True, "opts": opts,
+                              "stream": 2, "fault": fault, "items": apply_fault(base, tuple(fault)), "chunkform": ["dict", "df"][k % 2]})
+            k += 1
     # cooler.create.create called directly: the mode / append rule
     for fi, (si, fault) in enumerate(faults):
         if si == 2 and (fault is None or fault[0] == "raise" or (fault[0] == "record" and fault[3] == 0 and fault[1] in ("excess", "dup"))):
@@ -388,6 +435,7 @@ def run(ctx):
     d = ctx.tmp / "c13"
     d.mkdir(exist_ok=True)
     tpl = build_templates(d)
+    _BEFORE.clear()
     work = d / "work"
     work.mkdir(exist_ok=True)
     cases = gen_cases(ctx)
@@ -412,6 +460,7 @@ def replay(ctx, case):
     d = ctx.tmp / "c13"
     d.mkdir(exist_ok=True)
     tpl = build_templates(d)
+    _BEFORE.clear()
     work = d / "work"
     work.mkdir(exist_ok=True)
     out = impl_run(case, tpl, work)
